@@ -89,6 +89,8 @@ pub struct Cfg {
     pub hash_salt: u64,
     /// bit mask of the scheduler-level fault kinds enabled in this run (swarm testing)
     pub kinds: u64,
+    /// this run follows a directed schedule skeleton instead of the random scheduler
+    pub skeleton: bool,
 }
 
 #[derive(Clone, Copy, PartialEq, Eq, Debug)]
@@ -227,6 +229,9 @@ pub struct Inner {
     /// XTRIM has evicted a height that some replica had not committed yet (the stream window
     /// is shorter than the lag of a replica)
     pub trim_outran_replica: bool,
+    /// some node stream has received a lower height after a higher one (a sub-quorum repair of
+    /// an older height): from then on the stream is not height-ordered
+    pub unordered_append: bool,
     /// incarnations that are executing a command of the scheduler
     pub busy: BTreeSet<String>,
 }
@@ -485,6 +490,19 @@ impl Inner {
                         })
                         .collect(),
                 };
+            let mut max_h = 0u32;
+            for (h, _, _) in &entries {
+                if let Some(h) = h {
+                    if *h < max_h && !self.unordered_append {
+                        self.unordered_append = true;
+                        self.probe("unordered_append");
+                        self.ev(format!(
+                            "n{n}: stream is no longer height-ordered (height {h} appended after {max_h})"
+                        ));
+                    }
+                    max_h = max_h.max(*h);
+                }
+            }
             for (h, d, ep) in entries {
                 let (Some(h), Some(d)) = (h, d) else { continue };
                 let id = self.block_id_of(&d);
@@ -528,8 +546,8 @@ impl Inner {
             }
         }
         let over = self.cfg.over_budget;
-        let class = if self.trim_outran_replica {
-            "two_blocks_on_quorum.trimmed_window"
+        let class = if self.unordered_append {
+            "two_blocks_on_quorum.after_unordered_append"
         } else {
             "two_blocks_on_quorum"
         };
@@ -560,8 +578,8 @@ impl Inner {
         if !ok && over {
             self.probe("over_budget_fork");
         }
-        let class = if self.trim_outran_replica {
-            "replicas_committed_different_blocks.trimmed_window"
+        let class = if self.unordered_append {
+            "replicas_committed_different_blocks.after_unordered_append"
         } else {
             "replicas_committed_different_blocks"
         };
